@@ -349,7 +349,9 @@ def mentions_field(v, key, depth=0):
     return False
 
 
-def header_constants(ctx, report):
+def header_constants(ctx, report, RULE='C04.R4', scope=('cryptoparser.tls.', 'cryptoparser.ssh.'), floor=12, spec_minimum=None):
+    """``spec_minimum``: {class name: (shortest encoding the specification allows, citation)} - used instead of the size derived
+    from the layout where the specification states one (a repetition that has to have one element)"""
     model = ctx.model
     import json, os
     with open(os.path.join(os.path.dirname(os.path.dirname(os.path.abspath(__file__))), 'nondsl.json')) as fh:
@@ -357,7 +359,7 @@ def header_constants(ctx, report):
     for c in model.concrete_parsables():
         f = c.resolve('_parse')
         # stream facing protocol messages only: DNS RDATA is delivered whole inside a length delimited record
-        if not (c.module.name.startswith('cryptoparser.tls.') or c.module.name.startswith('cryptoparser.ssh.')) or c.name in nondsl:
+        if not c.module.name.startswith(tuple(scope)) or c.name in nondsl:
             continue
         # find `if len(parsable) < cls.X: raise NotEnoughData(...)` in the functions _parse reaches in its own class chain
         names = set()
@@ -387,15 +389,17 @@ def header_constants(ctx, report):
             v = c.resolve_var(name)
             if v is None or not (isinstance(v.node, ast.Constant) and isinstance(v.node.value, int)):
                 continue
-            report.count('C04.R4')
+            report.count(RULE)
             cn = ctx.canon.canon(c, 'parse')
             ms = min_size(cn.elements, ctx.canon)
+            if spec_minimum is not None and c.name in spec_minimum:
+                ms = spec_minimum[c.name][0]
             if v.node.value > ms and cn.elements:
-                report.add('C04.R4', '%s@%s' % (c.construct, name),
+                report.add(RULE, '%s@%s' % (c.construct, name),
                            'pre-check demands %d bytes but the shortest input the layout accepts has %d: a reader is told to wait for bytes a minimal valid message never sends' % (v.node.value, ms))
             else:
-                report.sample({'rule': 'C04.R4', 'class': c.name, 'constant': name, 'value': v.node.value, 'min_layout_size': ms}, 40)
-    report.floor('C04.R4', 12, 'header constants in pre-checks')
+                report.sample({'rule': RULE, 'class': c.name, 'constant': name, 'value': v.node.value, 'min_layout_size': ms}, 40)
+    report.floor(RULE, floor, 'header constants in pre-checks')
 
 
 # ---- R5: the not-enough-data signal is never swallowed on a binary parse path --------------------------------------
